@@ -1,5 +1,6 @@
 import FV.Drv.Common
 import FV.Model.Netlist
+import FV.Model.NetlistStog
 /-
   op table for the netlist reader / writer model (properties C04, C05).
 
@@ -11,8 +12,9 @@ import FV.Model.Netlist
   <eps> = `U` (tolerance undefined: the netlist proposes one) or `E <εd> <εA>`.
   Scalars in replies carry the prefix `d` so that the harness knows where a tolerance may apply.
 
-  `create_stog` is a parameter of the model; the instance used here (`stogImpl`) is a line-by-line port of
-  frame/geometry/geometry.py::create_stog / Rectangle.find_location, only executed, never used in a theorem.
+  `create_stog` is a parameter of the model; the instance executed here is `stogC06` (FV/Model/NetlistStog.lean): the C06
+  model of `create_stog` on the tagged rectangles — the very function the headline theorems of C04 / C05 are about
+  (`StogPerm`, `StogStable` proved for it in FV/Proofs/StogInst.lean).
 -/
 namespace FV.Drv
 open FV FV.NL
@@ -71,57 +73,6 @@ partial def showY : YVal α → String
   | .seq l => s!"L {l.length}" ++ String.join (l.map fun v => " " ++ showY v)
   | .map l => s!"M {l.length}" ++ String.join (l.map fun kv => " " ++ showY kv.1 ++ " " ++ showY kv.2)
 
-/-! ### executable instance of the STOG parameter -/
-
-def pyAbs (x : α) : α := if x < (NL.zero : α) then -x else x
-
-/-- `almost_eq(v1, v2, epsilon)`. -/
-def almostEq (a b eps : α) : Bool := decide (pyAbs (a - b) < eps)
-
-/-- `Rectangle.find_location` (`t` = the trunk candidate). -/
-def findLocation (εd εA : α) (t r : Rect α) : Loc :=
-  if εA < t.areaOverlap r then .nopoly else
-  let ns (loc : Loc) : Loc :=
-    if t.xmin - εd < r.xmin ∧ r.xmax < t.xmax + εd then loc else .nopoly
-  let ew (loc : Loc) : Loc :=
-    if t.ymin - εd < r.ymin ∧ r.ymax < t.ymax + εd then loc else .nopoly
-  if almostEq t.ymax r.ymin εd then ns .north
-  else if almostEq t.ymin r.ymax εd then ns .south
-  else if almostEq t.xmax r.xmin εd then ew .east
-  else if almostEq t.xmin r.xmax εd then ew .west
-  else .nopoly
-
-/-- the candidate loop of `create_stog`: index of the chosen trunk. -/
-def bestTrunk (εd εA : α) (all : List (NRect α)) : List (NRect α) → Nat → Option (Nat × NRect α) → Option (Nat × NRect α)
-  | [], _, best => best
-  | t :: rest, i, best =>
-    let stop := match best with
-      | some (_, b) => decide (t.area ≤ b.area)
-      | none => false
-    if stop then best else
-    let good := all.all fun r => r.toRect.beq t.toRect || findLocation εd εA t.toRect r.toRect != .nopoly
-    bestTrunk εd εA all rest (i + 1) (if good then some (i, t) else best)
-
-/-- `create_stog`. -/
-def stogImpl (εd εA : α) (rs : List (NRect α)) : List (NRect α) :=
-  match rs with
-  | [] => []
-  | [r] => [{ r with loc := .trunk }]
-  | _ =>
-    let rs0 := rs.map NRect.resetLoc
-    match bestTrunk εd εA rs0 rs0 0 none with
-    | none => rs0
-    | some (b, t) =>
-      match rs0 with
-      | [] => []
-      | r0 :: tail =>
-        -- swap positions 0 and b
-        let swapped := if b = 0 then r0 :: tail else t :: (tail.set (b - 1) r0)
-        match swapped with
-        | [] => []
-        | tr :: others =>
-          { tr with loc := .trunk } :: others.map fun r => { r with loc := findLocation εd εA tr.toRect r.toRect }
-
 /-! ### rendering of a loaded netlist -/
 
 def showNum : Num α → String
@@ -178,7 +129,7 @@ def loadWith (sqrt : α → α) (tiny : α) (eps : Option (α × α)) (t : YVal 
     let (d, a) := match eps with
       | some p => p
       | none => (defaultEps sqrt tiny ms).getD (NL.zero, NL.zero)
-    match finish (stogImpl d a) a ms es with
+    match finish (stogC06 d a) a ms es with
     | .error e => .error e
     | .ok n => .ok (n, ms.flatMap (·.rects))
 
